@@ -30,6 +30,8 @@ def evOf (tok : String) : Option Ev :=
   | ["ok", op, rcs, props] => do pure (.doneOk (← op.toNat?) (← natList rcs) (← props.toNat?))
   | ["x", op] => do pure (.doneOther (← op.toNat?))
   | ["Q"] => some .quiescent
+  | ["X"] => some .cancelAll
+  | ["R"] => some .restart
   | _ => none
 
 def parse : List String → Except String (List Ev)
@@ -83,6 +85,7 @@ def why (s : S) : Ev → String
     | .other => "model ?"
   | .doneOk op _ _ =>
     if s.isDone op then "C05 operation completed twice" else
+    if s.cancelled then "C05 operation completed successfully after cancel() / a finished async_disconnect (it must end with operation_aborted)" else
     match s.known op with
     | some (.sub, _) | some (.unsub, _) => "C14 (un)subscribe completed without error although no matching well-formed acknowledgement with these reason codes and properties was consumed after its request was written"
     | _ => "C01 publish completed without error although no matching final acknowledgement with this reason code and these properties was consumed after its PUBLISH was written"
